@@ -637,6 +637,53 @@ def check_value(ctx, rng, spec, value, thorough_gaps):
         except Exception as e:   # noqa
             ctx.event('eq-raised')
     ctx.event('roundtrip')
+    # ---- a decoded model belongs to the caller: it is edited in place, then the same octets are decoded again
+    if got == exp:
+        try:
+            edited = scribble_model(back)
+            again = norm_val(top, cls.parse(ref))
+            if edited:
+                ctx.event('decoded-again-after-editing-the-first-result')
+            if again != exp:
+                ctx.report('decoding-depends-on-history', 'the same octets decoded again, after the first decoded model was edited in place, give another value', dict(w, got=again))
+        except Exception as e:   # noqa
+            ctx.report(f'decode-again-raises:{type(e).__name__}@{raising_site(e)[0]}', f'{e!r}', w)
+    # ---- the model object is edited IN PLACE after it was encoded (list grown / shrunk, map entry removed) and encoded again
+    value2 = {k: v for k, v in value.items()}
+    done = []
+    for f in spec['fields']:
+        v_ = value.get(f['name'])
+        if f['kind'] == 'rep' and isinstance(v_, list) and v_:
+            lst = getattr(m, f['name'], None)
+            if isinstance(lst, list) and len(lst) == len(v_):
+                if len(v_) % 2:
+                    lst.append(lst[0])
+                    value2[f['name']] = list(v_) + [v_[0]]
+                    done.append('append')
+                else:
+                    del lst[0]
+                    value2[f['name']] = list(v_[1:])
+                    done.append('delete')
+        elif f['kind'] == 'map' and isinstance(v_, dict) and v_:
+            d_ = getattr(m, f['name'], None)
+            if isinstance(d_, dict) and len(d_) == len(v_):
+                del d_[next(iter(d_))]
+                value2[f['name']] = {k: x for i, (k, x) in enumerate(v_.items()) if i > 0}
+                done.append('map-delete')
+    if done:
+        try:
+            items2 = []
+            for f in spec['fields']:
+                items2.extend(ref_items(f, value2.get(f['name'])))
+            ref2 = enc_items(items2)
+            ann2 = m.encoded_length()
+            wire2 = bytes(m.encode())
+            ctx.event('encoded-again-after-an-in-place-edit')
+            if wire2 != ref2 or ann2 != len(ref2):
+                ctx.report('encoding-ignores-in-place-edit', f'after {done} on the container attributes of an already encoded model, encode() / encoded_length() '
+                           f'({ann2}) do not give the encoding of the model as it is now ({len(ref2)} octets)', dict(w, value_now=value2, got=wire2[:300], expected=ref2[:300]))
+        except Exception as e:   # noqa
+            ctx.report(f'encode-again-raises:{type(e).__name__}@{raising_site(e)[0]}', f'{e!r}', dict(w, value_now=value2))
     # ---- unknown / repeated / out-of-order elements
     used = all_types(spec)
     unk_even = next(t for t in (0xFE00, 0xFE02, 0x3E8, 0xA0, 0xFFF0, 0x10002) if t not in used)
@@ -649,6 +696,13 @@ def check_value(ctx, rng, spec, value, thorough_gaps):
             t = unk_odd if crit else unk_even
             mutated = enc_items(insert_at(items, path, idx, (t, rng.choice([b'', b'\x01', b'\xff\xfe\xfd']), 'unk')))
             ww = dict(w, mutated=mutated[:400], gap=(path, idx, kind), unknown_type=t)
+            if crit and not ign and idx % 2 == 0:
+                # the same octets were decoded leniently just before (a tool that inspects, then the strict consumer)
+                try:
+                    cls.parse(mutated, ignore_critical=True)
+                    ctx.event('lenient-decode-before-the-strict-one')
+                except Exception:   # noqa
+                    pass
             try:
                 b2 = cls.parse(mutated)
                 err = None
@@ -696,6 +750,36 @@ def check_value(ctx, rng, spec, value, thorough_gaps):
                 sw = enc_items(replace_level(items, path, lvl[:i] + [lvl[i + 1], it] + lvl[i + 2:]))
                 expect_decode_error(ctx, cls, sw, 'out-of-order-critical-accepted', dict(w, mutated=sw[:400]))
                 ctx.event('swap-critical')
+
+
+def scribble_model(x, depth=0):
+    """Edit a decoded model in place: lists grow / shrink, maps lose entries, nested models are visited."""
+    n = 0
+    if depth > 6 or x is None:
+        return 0
+    if isinstance(x, list):
+        for v in x:
+            n += scribble_model(v, depth + 1)
+        if x:
+            x.append(x[0])
+            del x[0]
+            x.pop()
+        else:
+            x.append(None)
+        return n + 1
+    if isinstance(x, dict):
+        for v in list(x.values()):
+            n += scribble_model(v, depth + 1)
+        x.clear()
+        return n + 1
+    if isinstance(x, bytearray):
+        x[:] = bytes(len(x))
+        return n + 1
+    d = getattr(x, '__dict__', None)
+    if isinstance(d, dict) and hasattr(type(x), '_encoded_fields'):
+        for v in list(d.values()):
+            n += scribble_model(v, depth + 1)
+    return n
 
 
 def has_nonascii(v):
@@ -809,6 +893,8 @@ def run(ctx):
             ctx.klass('shipped-values')
     for k in ('roundtrip', 'gap-plain-noncrit', 'gap-plain-crit', 'gap-map-kv-noncrit', 'dup-critical', 'swap-critical', 'container-field-filled-in-place', 'field-with-default-explicitly-set-to-None'):
         ctx.need_event(k)
+    for k_ in ('decoded-again-after-editing-the-first-result', 'encoded-again-after-an-in-place-edit', 'lenient-decode-before-the-strict-one'):
+        ctx.need_event(k_)
     ctx.assumptions = ['critical = odd type', 'BoolField False == absent', 'a field with a default is either left unassigned (default encoded) or explicitly set to None (omitted)',
                        'name fields use type 7 only; type numbers are distinct within one model (unambiguous decoding)']
 
